@@ -7,4 +7,4 @@ CONSTANTS
   TxMode = FALSE
   Dev = {"cleanup_in_copy_reuses"}
   MaxMsgs = 3
-INVARIANTS TypeOK ExclusiveHold CleanHandoff IdleIsClean Bounded NoLeak MapSound BeliefSound HoldsOnlyInTx
+INVARIANTS TypeOK ExclusiveHold CleanHandoff IdleIsClean Bounded NoLeak MapSound MapComplete BeliefSound HoldsOnlyInTx
